@@ -1279,13 +1279,28 @@ func (l *Listener) packetInput(data []byte, addr net.Addr) {
 		return
 	}
 
+	// a closed listener accepts nobody: do not start sessions that no
+	// application could ever obtain (and therefore never close)
+	select {
+	case <-l.die:
+		return
+	default:
+	}
+
 	// new session
 	s = newUDPSession(conv, l.dataShards, l.parityShards, l, l.conn, false, addr, l.block)
 	s.kcpInput(data)
 	l.sessionLock.Lock()
+	select {
+	case <-l.die: // closed meanwhile; Close has already emptied the backlog
+		l.sessionLock.Unlock()
+		s.Close()
+		return
+	default:
+	}
 	l.sessions[addr.String()] = s
+	l.chAccepts <- s // has room: checked above, and this goroutine is the only producer
 	l.sessionLock.Unlock()
-	l.chAccepts <- s
 }
 
 func (l *Listener) notifyReadError(err error) {
@@ -1404,6 +1419,23 @@ func (l *Listener) Close() error {
 
 	if !once {
 		return errors.WithStack(io.ErrClosedPipe)
+	}
+
+	// sessions still waiting in the accept backlog were never handed to the
+	// application, nobody else can close them: release them here
+	var orphans []*UDPSession
+	l.sessionLock.Lock()
+	for drained := false; !drained; {
+		select {
+		case s := <-l.chAccepts:
+			orphans = append(orphans, s)
+		default:
+			drained = true
+		}
+	}
+	l.sessionLock.Unlock()
+	for _, s := range orphans {
+		s.Close() // takes sessionLock itself to leave the session table
 	}
 
 	if l.ownConn {
